@@ -47,6 +47,24 @@ def mk_config(prog, st, fixed=None, layout_elems=()):
     return struct_of(prog, "Config", vals), opts
 
 
+# option field -> setter, in the order the native replay driver calls them (riti_config_set_* forward to these)
+SETTERS = [("include_english", "set_suggestion_include_english"), ("phonetic_suggestion", "set_phonetic_suggestion"),
+           ("fixed_suggestion", "set_fixed_suggestion"), ("fixed_vowel", "set_fixed_automatic_vowel"),
+           ("fixed_chandra", "set_fixed_automatic_chandra"), ("fixed_kar", "set_fixed_traditional_kar"),
+           ("fixed_old_reph", "set_fixed_old_reph"), ("fixed_numpad", "set_fixed_numpad"), ("fixed_kar_order", "set_fixed_old_kar_order"),
+           ("ansi", "set_ansi_encoding"), ("smart_quote", "set_smart_quote")]
+
+
+def config_via_setters(prog, it, st, values, layout_elems=()):
+    """A Config brought to `values` the way a front end does it: the crate's own setters (from MIR), called in the native driver's order.
+    Used where executor and native build are compared on concrete inputs, so that both sides reach the configuration the same way."""
+    cfg, _ = mk_config(prog, st, {o: False for o in OPTS}, layout_elems=layout_elems)
+    holder = [cfg]
+    for field_name, setter in SETTERS:
+        it.call_function(prog.find_fn("Config", setter), [Ref(holder, 0, True), values.get(field_name, False)])
+    return holder[0]
+
+
 def mk_data(prog, st):
     """`Data` as the crate declares it: the known tables are opaque (their accessors are oracle cut points); a field this machinery does not
     know (a refactor added a derived value) is an unconstrained value of its type, so code reading it is executed rather than refused -
